@@ -17,6 +17,7 @@ type Cast struct {
 	R1, R2         *User // reporters (R2 is staked with two validators)
 	RV1, RV2       *User // validator operators V1, V2 as reporters (hold > 2/3 of validator power together)
 	S1, S2         *User // selectors of R1 / R2
+	S3             *User // second selector of R1 (two selectors of one reporter)
 	Tipper, Payer  *User
 	ModeQ, ModeQ2  []byte // short-window weighted-mode queries
 	ETH, BTC, TRBQ []byte
@@ -41,7 +42,7 @@ func mustBlock(w *World, dt time.Duration) {
 // StdSetup builds the standard deep-ish state shared by most scenarios:
 // two reporters with selectors, a registered short-window mode spec, minting on.
 func StdSetup(w *World, mintOn bool) *Cast {
-	c := &Cast{R1: w.Usr[0], R2: w.Usr[1], S1: w.Usr[2], S2: w.Usr[3], Tipper: w.Usr[4], Payer: w.Usr[5]}
+	c := &Cast{R1: w.Usr[0], R2: w.Usr[1], S1: w.Usr[2], S2: w.Usr[3], Tipper: w.Usr[4], Payer: w.Usr[5], S3: w.Usr[6]}
 	c.ETH, c.BTC, c.TRBQ = SpotQuery("eth", "usd"), SpotQuery("btc", "usd"), SpotQuery("trb", "usd")
 	c.ModeQ, c.ModeQ2 = CustomQuery(ModeType, 1), CustomQuery(ModeType, 2)
 	c.Dep1, c.Wd1 = BridgeQuery(true, 1), BridgeQuery(false, 1)
@@ -53,8 +54,11 @@ func StdSetup(w *World, mintOn bool) *Cast {
 	must(w, "create R2", MsgCreateReporter(c.R2.Acc, "0.05", TRB))
 	must(w, "delegate S1", MsgDelegate(c.S1.Acc, w.Vals[0], 20*TRB))
 	must(w, "select S1", MsgSelect(c.S1.Acc, c.R1.Acc))
-	must(w, "delegate S2", MsgDelegate(c.S2.Acc, w.Vals[2], 30*TRB))
+	must(w, "delegate S2", MsgDelegate(c.S2.Acc, w.Vals[2], 30*TRB)) // the third validator may be outside the bonded set
+	must(w, "delegate S2b", MsgDelegate(c.S2.Acc, w.Vals[1], 5*TRB))
 	must(w, "select S2", MsgSelect(c.S2.Acc, c.R2.Acc))
+	must(w, "delegate S3", MsgDelegate(c.S3.Acc, w.Vals[1], 15*TRB))
+	must(w, "select S3", MsgSelect(c.S3.Acc, c.R1.Acc))
 	c.RV1 = &User{Name: "RV1", Priv: w.Vals[0].OpPriv, Acc: w.Vals[0].Acc}
 	c.RV2 = &User{Name: "RV2", Priv: w.Vals[1].OpPriv, Acc: w.Vals[1].Acc}
 	must(w, "create RV1", MsgCreateReporter(c.RV1.Acc, "0", TRB))
@@ -103,7 +107,7 @@ var voteOrder = []disputetypes.VoteEnum{disputetypes.VoteEnum_VOTE_SUPPORT, disp
 // Times is the Δt alphabet (DESIGN §2.1).
 var Times = []time.Duration{
 	time.Millisecond, time.Second, 10 * time.Minute, 12 * time.Hour,
-	24*time.Hour + time.Millisecond, 48*time.Hour + time.Millisecond, 72*time.Hour + time.Millisecond,
+	24 * time.Hour, 24*time.Hour + time.Millisecond, 48 * time.Hour, 48*time.Hour + time.Millisecond, 72 * time.Hour, 72*time.Hour + time.Millisecond,
 	21*24*time.Hour + time.Second,
 }
 
